@@ -37,6 +37,14 @@ Ctx == [nspath |-> NsPath,
         tparams |-> IF Top.k = "class" THEN {Top.tmpl[i].name : i \in 1..Len(Top.tmpl)} ELSE {},
         nmembers |-> IF Top.k = "class" THEN Len(Top.members) ELSE 0,
         cnt    |-> cnt,
+        nitems |-> LET RECURSIVE NI(_)
+                       NI(items) == IF items = <<>> THEN 0
+                                    ELSE (IF Head(items).k = "namespace" THEN 1 + NI(Head(items).items) ELSE 1) + NI(Tail(items))
+                       RECURSIVE SumOpen(_)
+                       SumOpen(i) == IF i = 0 THEN 0
+                                     ELSE (IF stack[i].k = "class" THEN 1 ELSE NI(stack[i].items) + (IF i = 1 THEN 0 ELSE 1))
+                                          + SumOpen(i - 1)
+                   IN SumOpen(Len(stack)),   \* declarations at namespace level (a class counts once)
         depth  |-> Len(stack)]
 
 AppendToTop(s, d) ==
@@ -89,7 +97,7 @@ AddLeaf(d) ==
   /\ Growing /\ Top.k = "namespace"
   /\ stack' = AppendToTop(stack, d)
   /\ toks' = toks \o RenderLeaf(d)
-  /\ cnt' = cnt + 1
+  /\ cnt' = cnt + (IF d.k = "class" THEN 1 + Len(d.members) ELSE 1)   \* a whole class counts its members
   /\ UNCHANGED mode
 
 \* what a finished derivation hands to the harness
